@@ -89,11 +89,12 @@ Definition init_by_array (key : list N) : list N :=
   end.
 
 (* random_seed for an int: the absolute value split into 32-bit words, least significant first,
-   (bits - 1) / 32 + 1 of them, one word for 0 *)
+   (bits - 1) / 32 + 1 of them, one word for 0. [trunc32 n] = n mod 2^32 and [N.shiftr n 32] = n / 2^32
+   (MTP.key_words_unfold); masks and shifts because [mod] and [/] take seconds on seeds of 20000 bits *)
 Fixpoint key_words (fuel : nat) (n : N) : list N :=
   match fuel with
   | O => []
-  | S f => (n mod w32) :: (if n / w32 =? 0 then [] else key_words f (n / w32))
+  | S f => trunc32 n :: (if N.shiftr n 32 =? 0 then [] else key_words f (N.shiftr n 32))
   end.
 Definition key_of (n : N) : list N := key_words (S (N.to_nat (N.size n))) n.
 Fixpoint key_value (k : list N) : N :=
@@ -257,9 +258,13 @@ End Choices.
 
 (* floor(-log2 y) of a positive finite float, exact: y = mant * 2^e with 2^52 <= mant < 2^53, so
    2^-(k+1) < y <= 2^-k holds for k = -(52+e) when mant = 2^52 (y a power of two) and for
-   k = -(53+e) otherwise. The code computes math.floor(-math.log(y)/math.log(2.0)) with libm; the
-   two can differ only when y is a power of two or so close above one that the rounded quotient
-   lands on the integer (not observed; see harness/mt_corr.py). *)
+   k = -(53+e) otherwise. The code computes math.floor(-math.log(y)/math.log(2.0)) with libm, which
+   is not modelled. Measured with the installed libm: the two agree on every power of two 2^-k
+   (k = 0..1074) and on 2*10^6 random tiles; they differ on the 1-4 floats directly above 2^-k
+   (3 <= k <= 31; more for larger k), where the rounded quotient lands on k and the code answers k
+   instead of k-1. Example (no seed known to produce it): max_reward 6, draw
+   u = 0x1.c3870e1c38710p-5 gives y = 0x1.0000000000001p-4, the code's reward is 4, the exact
+   one 3. harness/mt_corr.py compares rewards on every board, so such a tile would be reported. *)
 Definition floor_neg_log2_f (y : float) : Z :=
   let (m, e) := fdecomp y in
   (if (m =? 4503599627370496)%Z then - (52 + e) else - (53 + e))%Z.
